@@ -55,6 +55,7 @@ EXTENDS Naturals, Sequences, FiniteSets, TLC
 
 CONSTANTS Ids, Tos, RFroms, Types, OpenKinds, MaxHist,
           Cids,       \* subset of {"fresh", "empty", "dup"}: what the caller may put into the id of a request
+          Bodies,     \* what the continuation of a request does besides recording: subset of {"none", "sendNew"}
           Attempts,   \* subset of {"authfail", "bindfail", "userabort", "precut", "abandon"}
           IdRule      \* "replace": the intended rule (and the code's); "keep": the rule left out -- only to
                       \* show that WireUnique / RightSender depend on it (IqTrackerKeep.cfg must fail)
@@ -74,7 +75,24 @@ vars  == <<mvars, hist>>
 \* wire: the id the stanza of the request carries on the wire, as a token: "w-i" = an id nobody else
 \* uses (the caller's fresh id, or the fresh one the library substituted), "" = no id at all.
 \* It is the wire id that the addressee answers, so it is the wire id a request is matched by.
-None == [st |-> "None", to |-> "none", n |-> 0, by |-> "none", c |-> "", wire |-> ""]
+None == [st |-> "None", to |-> "none", n |-> 0, by |-> "none", c |-> "", wire |-> "", b |-> "none"]
+
+\* Continuation bodies that re-enter the API (like the bodies of Task.tla): "sendNew" = the continuation of
+\* request i issues another request, Child(i), to the same addressee, the moment it runs -- whatever made
+\* it run (response, error, cancellation by a session end / a new session / a failed attempt, send failure).
+\* Requests "k*" are only ever issued that way.
+Child(i) == IF i = "i1" THEN "k1" ELSE IF i = "i2" THEN "k2" ELSE ""
+Kids == {"k1", "k2"}
+\* r0 -> r1 is the effect of a step on the request table; writable: a stanza can be written (a session is
+\* up or is just being opened).  The children of the requests that completed in the step are issued:
+\* pending if writable, else failed at once with a send error (which would in turn run their bodies: they have none).
+Spawn(r0, r1, writable) ==
+    [k \in Ids |->
+        IF \E i \in Ids : Child(i) = k /\ r1[i].b = "sendNew" /\ r0[i].st # "Done" /\ r1[i].st = "Done" /\ r1[k].st = "None"
+        THEN LET i == CHOOSE x \in Ids : Child(x) = k IN
+             IF writable THEN [None EXCEPT !.st = "Out", !.to = r1[i].to, !.c = "fresh", !.wire = "w-" \o k]
+                         ELSE [None EXCEPT !.st = "Done", !.to = r1[i].to, !.n = 1, !.by = "local", !.c = "fresh", !.wire = "w-" \o k]
+        ELSE r1[k]]
 FreshWire(i) == "w-" \o i
 CidChoices(i) == (Cids \ {"dup"}) \cup (IF "dup" \in Cids THEN {"dup-" \o j : j \in Ids \ {i}} ELSE {})
 DupOf(c) == CHOOSE j \in Ids : c = "dup-" \o j
@@ -124,17 +142,18 @@ WireFor(i, c) ==
     IF IdRule = "replace" \/ c = "fresh" THEN FreshWire(i)
     ELSE IF c = "empty" THEN "" ELSE req[DupOf(c)].wire
 
-Send(i, t, c) ==
-    /\ ~dead /\ req[i].st = "None"
+Send(i, t, c, b) ==
+    /\ ~dead /\ req[i].st = "None" /\ i \notin Kids
+    /\ b \in Bodies /\ (b # "none" => Child(i) \in Ids)
     /\ c \in CidChoices(i)
     /\ IsDup(c) => req[DupOf(c)].st = "Out"        \* the id of a request that is still outstanding
     /\ IF up
-       THEN req' = [req EXCEPT ![i] = [None EXCEPT !.st = "Out", !.to = t, !.c = c, !.wire = WireFor(i, c)]]
+       THEN req' = [req EXCEPT ![i] = [None EXCEPT !.st = "Out", !.to = t, !.c = c, !.wire = WireFor(i, c), !.b = b]]
        ELSE \* no session: the stanza cannot be written, the request fails at once with a send error
-            req' = [req EXCEPT ![i] = [None EXCEPT !.st = "Done", !.to = t, !.n = 1, !.by = "local", !.c = c,
-                                                   !.wire = WireFor(i, c)]]
+            req' = Spawn(req, [req EXCEPT ![i] = [None EXCEPT !.st = "Done", !.to = t, !.n = 1, !.by = "local", !.c = c, !.b = b,
+                                                   !.wire = WireFor(i, c)]], FALSE)
     /\ out' = [a |-> "Send", id |-> i, cls |-> "", passed |-> 0]
-    /\ Log([a |-> "Send", id |-> i, to |-> t, c |-> c])
+    /\ Log([a |-> "Send", id |-> i, to |-> t, c |-> c, b |-> b])
     /\ UNCHANGED <<up, smOn, canRes, resumable, dead>>
 
 \* The element carries req[i].wire and comes from f relative to req[i].to.  The tracker looks the id up:
@@ -149,7 +168,7 @@ Recv(i, ty, f) ==
            hit   == found # {} /\ ty \in Responses
                     /\ (f = "absent" \/ (f = "exact" /\ req[k].to = req[i].to))
        IN
-       /\ req' = IF hit THEN [req EXCEPT ![k] = [@ EXCEPT !.st = "Done", !.n = @ + 1, !.by = ByOf(ty)]]
+       /\ req' = IF hit THEN Spawn(req, [req EXCEPT ![k] = [@ EXCEPT !.st = "Done", !.n = @ + 1, !.by = ByOf(ty)]], TRUE)
                         ELSE req
        /\ out' = [a |-> "Recv", id |-> i,
                   cls |-> IF ty \in Responses THEN Cls(req[i].to, f) ELSE "not",
@@ -165,7 +184,8 @@ Open(k) ==
        THEN smOn' = TRUE /\ UNCHANGED <<canRes, req>>
        ELSE /\ smOn' = (k # "plain")
             /\ canRes' = (k = "smr")
-            /\ req' = CancelAll(req)
+            \* the requests of the old session are cancelled; what their continuations send goes out on the new one
+            /\ req' = Spawn(req, CancelAll(req), TRUE)
     /\ out' = [a |-> "Open", id |-> "", cls |-> k, passed |-> 0]
     /\ Log([a |-> "Open", k |-> k, refused |-> (resumable /\ k # "resumed")])   \* refused: new session although the last one was resumable
     /\ UNCHANGED dead
@@ -176,7 +196,7 @@ Close(k) ==
     /\ LET rs == (k = "cut") /\ smOn /\ canRes IN
        /\ resumable' = rs
        /\ canRes' = (canRes /\ k = "cut")
-       /\ req' = IF rs THEN req ELSE CancelAll(req)
+       /\ req' = IF rs THEN req ELSE Spawn(req, CancelAll(req), FALSE)
     /\ out' = [a |-> "Close", id |-> "", cls |-> k, passed |-> 0]
     /\ Log([a |-> "Close", k |-> k])
     /\ UNCHANGED <<smOn, dead>>
@@ -186,7 +206,7 @@ Attempt(r) ==
     /\ ~dead /\ ~up
     /\ IF r = "precut"
        THEN UNCHANGED <<resumable, canRes, req>>
-       ELSE resumable' = FALSE /\ canRes' = FALSE /\ req' = CancelAll(req)
+       ELSE resumable' = FALSE /\ canRes' = FALSE /\ req' = Spawn(req, CancelAll(req), FALSE)
     /\ out' = [a |-> "Attempt", id |-> "", cls |-> r, passed |-> 0]
     /\ Log([a |-> "Attempt", r |-> r])
     /\ UNCHANGED <<up, smOn, dead>>
@@ -200,7 +220,7 @@ Destroy ==
     /\ UNCHANGED <<smOn, canRes>>
 
 Next ==
-    \/ \E i \in Ids : \E t \in Tos : \E c \in CidChoices(i) : Send(i, t, c)
+    \/ \E i \in Ids : \E t \in Tos : \E c \in CidChoices(i) : \E b \in Bodies : Send(i, t, c, b)
     \/ \E i \in Ids : \E ty \in Types : \E f \in RFroms : Recv(i, ty, f)
     \/ \E k \in OpenKinds : Open(k)
     \/ \E k \in {"cut", "user"} : Close(k)
@@ -236,7 +256,8 @@ RightSender  == [][out'.a = "Recv" /\ out'.cls = "must" /\ req[out'.id].st = "Ou
 \* an attempt that ends with resumption given up leaves nothing outstanding; one that does not, changes nothing
 GivenUp      == [][out'.a = "Attempt" => IF out'.cls = "precut" THEN req' = req ELSE Pending' = {}]_vars
 \* a new session that is not a resumption starts with nothing outstanding (never pending forever)
-FreshOpen    == [][out'.a = "Open" /\ out'.cls # "resumed" => Pending' = {}]_vars
+\* (what the continuations of the cancelled requests send goes out on the new session and is pending there)
+FreshOpen    == [][out'.a = "Open" /\ out'.cls # "resumed" => \A i \in Pending' : req[i].st = "None"]_vars
 TypeOK ==
     /\ up \in BOOLEAN /\ smOn \in BOOLEAN /\ canRes \in BOOLEAN /\ resumable \in BOOLEAN /\ dead \in BOOLEAN
     /\ \A i \in Ids : req[i].st \in {"None", "Out", "Done", "Abandoned"} /\ req[i].by \in {"none", "result", "error", "local"}
@@ -266,9 +287,11 @@ SessEver ==
             \/ x = "plain"   /\ hist[p].a = "Open" /\ hist[p].k = "plain"
             \/ x = "refused" /\ hist[p].a = "Open" /\ hist[p].refused
             \/ x = "user"    /\ hist[p].a = "Close" /\ hist[p].k = "user"}
-GenViewSess == <<up, smOn, canRes, resumable, dead, [i \in Ids |-> [st |-> req[i].st, by |-> req[i].by]], SessEver>>
+GenViewSess == <<up, smOn, canRes, resumable, dead,
+                 [i \in Ids |-> [st |-> req[i].st, by |-> req[i].by, b |-> IF req[i].st = "Out" THEN req[i].b ELSE ""]], SessEver>>
 GenViewNoCid == <<up, smOn, canRes, resumable, dead, [i \in Ids |-> [st |-> req[i].st, to |-> req[i].to, by |-> req[i].by]]>>
 GenView == <<up, smOn, canRes, resumable, dead,
              [i \in Ids |-> [st |-> req[i].st, to |-> req[i].to, by |-> req[i].by,
-                             c |-> IF req[i].st = "Out" THEN CidKind(req[i].c) ELSE ""]]>>
+                             c |-> IF req[i].st = "Out" THEN CidKind(req[i].c) ELSE "",
+                             b |-> IF req[i].st = "Out" THEN req[i].b ELSE ""]]>>
 =============================================================================
